@@ -57,7 +57,7 @@ type vdS struct {
 }
 
 func VerifSetup() {
-	for _, v := range []interface{}{new(int64), new(string), new(bool), new(vdS), new(uint8), new(int8), new(int16), new(int32), new(uint16), new(uint32), new(uint64)} {
+	for _, v := range []interface{}{new(int64), new(string), new(bool), new(vdS), new(uint8), new(int8), new(int16), new(int32), new(uint16), new(uint32), new(uint64), new([]int), new(map[string]int), new(vdDeep), new([2]int), new([]interface{})} {
 		CompileToGetDecoder(vTypeOf(v))
 	}
 }
